@@ -40,6 +40,23 @@ def write_replay(prop, failure, unit_run, witness):
     return p
 
 
+_ANCHORS = {}
+
+
+def anchor_files(prop):
+    if not _ANCHORS:
+        try:
+            with open(os.path.join(ROOT, 'properties.jsonl')) as fh:
+                for ln in fh:
+                    ln = ln.strip()
+                    if ln:
+                        d = json.loads(ln)
+                        _ANCHORS[d['id']] = set((d.get('anchors') or {}).get('files') or [])
+        except (OSError, ValueError):
+            pass
+    return _ANCHORS.get(prop, set())
+
+
 def decide_and_report(prop, tier, seed, runs, undecided, known, index, wall, extra=None):
     extra = extra or {}
     pinfo = index['properties'][prop]
@@ -60,6 +77,12 @@ def decide_and_report(prop, tier, seed, runs, undecided, known, index, wall, ext
         for f in r.failures:
             if prop in f['props']:
                 failures.append((f, r))
+            elif f.get('repo_file') and f.get('repo_file') in anchor_files(prop) and not any(k.get('obligation') == f['id'] for k in known.get('findings', [])):
+                # an obligation that has just broken in a file the property is anchored in (properties.jsonl), inside a unit
+                # registered for the property, is reported under the property although its clause is tagged for a neighbour
+                # (rounds 8-11 of the seeded changes: the commonest miss was a clause that failed under the wrong tag);
+                # obligations that are known findings of another property keep to that property
+                failures.append((dict(f, props=list(f['props']) + [prop], widened=True), r))
         for lg in getattr(r.unit, 'lost_ghost_updates', []) or []:
             fprops = (r.unit.fns.get(lg['fn']) or {}).get('props') or []
             cprops = set(q for c in r.unit.clauses if c.get('fn') == lg['fn'] for q in (c.get('props') or []))
